@@ -711,6 +711,23 @@ func c20R5(c *Ctx) {
 			}
 		}
 	}
+	// a coded error decides alone: on the conduiterr.Get hit edge neither the gRPC status nor the sentinels are consulted
+	if fn := c.W.SSAFunc(c.W.LookupFunc(pExitcode, "ExitCode")); fn != nil {
+		get := c.W.LookupFunc(pConduiterr, "Get")
+		fromErr, _ := c.W.ExtObj("google.golang.org/grpc/status", "FromError").(*types.Func)
+		sent := c.W.LookupFunc(pExitcode, "isEnvironmentSentinel")
+		for _, gc := range kit.CallsTo(fn, Set(get)) {
+			for _, e := range kit.OKEdges(gc) {
+				bad := false
+				for _, other := range kit.CallsTo(fn, Set(fromErr, sent)) {
+					if kit.EdgeReaches(e, other, nil) {
+						bad = true
+					}
+				}
+				c.R.Check(!bad, r, "ExitCode: a coded error's exit code depends only on its code", c.Pos(gc.Pos()), "the Get-hit edge returns without consulting the cause", "on the conduiterr.Get hit edge ExitCode can still fall through to the gRPC-status / OS-sentinel checks: the same code would exit differently depending on what it wraps", true)
+			}
+		}
+	}
 	// (d) os.Exit callers
 	osExit := c.ExtFunc(r, "os", "Exit")
 	exitCodeFn := c.Fn(r, pExitcode, "ExitCode")
